@@ -987,7 +987,6 @@ var c04VarIndexAllowed = map[string]string{
 	"excellent/functions.ReadChars/high#2":           "same slice as low#2",
 	"(*excellent.xinput).read/index#1":               "unreadRunes[unreadCount-1] under unreadCount > 0; unreadCount never exceeds the 4 slots (see unread)",
 	"(*excellent.xinput).unread/index#1":             "unreadRunes has 4 slots and the scanner pushes back at most two runes between reads (scanBody: the character after '@' and the '@'; C12/R2 evaluates every such case): 0 <= unreadCount <= 2 < 4",
-	"(*excellent.AnonFunction).Evaluate/index#2":     "args[i] for i ranging over x.Args inside a closure that is only reachable through functions.NumArgsCheck(len(x.Args), fn), which rejects any other number of arguments (checked by R3's wrapper rule)",
 	"(*excellent.ErrorListener).SyntaxError/index#1": "lines[line-1]: ANTLR reports the 1-based line of a token of the very text it was given, and counts lines by the same '\\n' the text is split on",
 	"(*excellent.ErrorListener).SyntaxError/low#1":   "lineOfError[column:…]: ANTLR's column is a 0-based offset inside that line (at most its length, at end of input)",
 	"(*excellent.ErrorListener).SyntaxError/high#1":  "min(column+10, len(lineOfError)) with column >= 0 from ANTLR: between column and the length",
